@@ -29,11 +29,14 @@ def enc_model(md, name, kind=None):
     return {"v": fr, "k": k}
 
 
-def settle(obls, fn="", shape="", mode="", unbounded=False, timeout_ms=None, with_smt_every=25):
+def settle(obls, fn="", shape="", mode="", unbounded=False, timeout_ms=None, with_smt_every=25, canary_timeout_ms=None):
     """Discharge obligations and turn them into picklable records."""
     out = []
     for i, o in enumerate(obls):
-        tactics.discharge(o, timeout_ms=timeout_ms)
+        if o.kind == "canary" and canary_timeout_ms:
+            tactics.discharge(o, timeout_ms=canary_timeout_ms, use_cvc5=False)
+        else:
+            tactics.discharge(o, timeout_ms=timeout_ms)
         replay = None
         if o.verdict != "discharged":
             mk = o.meta.get("replay")
